@@ -59,7 +59,8 @@ ObsOK(Q) == /\ Q.val = Ev.obs.val /\ Q.vst = Ev.obs.vst /\ Q.gen = Ev.obs.gen
                ELSE Dedup(CanonH(Q.hlog)) = Dedup(CanonH(Ev.obs.hlog))
 NoReadOn(v) == ~\E h \in DOMAIN D.hs : D.hs[h].v = v /\ D.hs[h].ev = "R"
 NoVetoOn(v) == ~\E h \in DOMAIN D.hs : D.hs[h].v = v /\ D.hs[h].veto
-KindOK(v, ch) == \A i \in DOMAIN ch : ch[i][1] \in Range(D.vecs[v].elems) /\ ch[i][3] /\ TypeOK(D, v, ch[i][2])
+\* (lights have no new*Vector of their own: what a newTextVector addressed to a light property does is not part of C06 / C14)
+KindOK(v, ch) == D.vecs[v].kind # "light" /\ \A i \in DOMAIN ch : ch[i][1] \in Range(D.vecs[v].elems) /\ ch[i][3] /\ TypeOK(D, v, ch[i][2])
 PropsOK(P, Q) ==
   /\ Ev.obs.wireok                                                            \* C07: every emitted message is valid and re-parses unchanged
   /\ RulePreserved(D, P, Q) /\ PubRuleOK(D, P, Q)                             \* C09
